@@ -244,7 +244,27 @@ def run_case(case: dict) -> dict:
         async def make_session():
             conn = aiohttp.TCPConnector(resolver=w.resolver(), limit=1 if case.get("holder") else 10, use_dns_cache=True, ttl_dns_cache=1000)
             conn_box["conn"] = conn
-            conn_box["session"] = aiohttp.ClientSession(connector=conn, timeout=aiohttp.ClientTimeout(total=None))
+            skw = {}
+            if case.get("trace_await"):
+                # tracing callbacks that await (logging to a queue, metrics): more points where the caller can be
+                # cancelled, some of them after the response head has arrived
+                tc = aiohttp.TraceConfig()
+
+                async def slow_cb(session_, ctx, params):
+                    for _ in range(3):
+                        await asyncio.sleep(0)
+
+                tc.on_request_start.append(slow_cb)
+                tc.on_request_end.append(slow_cb)
+                tc.on_request_exception.append(slow_cb)
+                skw["trace_configs"] = [tc]
+            if case.get("rfs_await"):
+                async def rfs(resp_):
+                    for _ in range(3):
+                        await asyncio.sleep(0)
+
+                skw["raise_for_status"] = rfs
+            conn_box["session"] = aiohttp.ClientSession(connector=conn, timeout=aiohttp.ClientTimeout(total=None), **skw)
 
         loop.drive(make_session(), max_time=10)
         session = conn_box["session"]
@@ -621,6 +641,9 @@ def cancel_shapes() -> list[dict]:
         {"mode": "cancel", "shape": "cl", "file_body": True},
         {"mode": "cancel", "shape": "chunked", "stall": "response", "cut": 80, "file_body": True},
         {"mode": "cancel", "shape": "chunked", "stall": "response", "cut": 80},
+        {"mode": "cancel", "shape": "chunked", "stall": "response", "cut": 80, "trace_await": True},
+        {"mode": "cancel", "shape": "chunked", "stall": "response", "cut": 80, "rfs_await": True},
+        {"mode": "cancel", "shape": "cl", "trace_await": True, "bystander": True, "by_when": "after_fault", "by_lag": 1},
         {"mode": "cancel", "shape": "big", "file_body": True},
         {"mode": "cancel", "shape": "chunked", "file_body": True, "bystander": True, "by_when": "after_fault", "by_lag": 1},
     ]
